@@ -210,7 +210,7 @@ def h_save_load_roundtrip(eng):
     eng.input("mx_attribute", {"category": key, "variable": idx, "attribute": attr, "kind": kind})
     model, objs = A.make_model(eng, shapes, mx_attr=(key, idx, attr, kind))
     opts = w.current_options
-    eng.assume(z3.Not(ops.to_z3(w.codegen)))
+    codegen = eng.branch(ops.to_z3(w.codegen))
     rec = A.run_save(eng, w, model, opts)
     if rec["raised"] is not None or len(rec["dumps"]) != 1:
         eng.prove("roundtrip2.save_completes", False, raised=rec["raised"])
@@ -263,7 +263,41 @@ def h_save_load_roundtrip(eng):
     for name in ("outputs", "delay_states", "alias_relation", "string_constants", "string_parameters"):
         eng.prove("roundtrip2.other_lists_are_the_models_own", z3.BoolVal(m.fields.get(name) is model.fields[name]), which=name)
     for o in ("dae_residual", "initial_residual", "variable_metadata", "delay_arguments"):
-        eng.prove("roundtrip2.functions_are_the_models_own", z3.BoolVal(m.fields.get("_%s_function" % o) is model.fields[o + "_function"]), function=o)
+        got = m.fields.get("_%s_function" % o)
+        if codegen:
+            # code generation: function o is loaded from the shared library that was generated FROM function o
+            gen = [n for n in rec["codegen"] if str(n).endswith("_" + o)]
+            ok = isinstance(got, A.FunctionStub) and got.label == "external:" + o and len(gen) == 1 and getattr(got, "library", None) == "lib:" + str(gen[0])
+            eng.prove("roundtrip2.code_generated_function_is_loaded_from_its_own_library", z3.BoolVal(bool(ok)), function=o, library=getattr(got, "library", None))
+        else:
+            eng.prove("roundtrip2.functions_are_the_models_own", z3.BoolVal(got is model.fields[o + "_function"]), function=o)
+
+
+def h_cached_model_properties(eng):
+    """CachedModel: each of the four function properties returns the function load_model stored for it (no crossing), and the variable
+    lists are the ones load_model filled"""
+    w = A.make_world(eng, with_db=False, minimal_env=True)
+    A.install(eng, w)
+    mod = eng.load_module(MOD)
+    cls = eng.module_global(mod, "CachedModel")
+    ar = VClass("AliasRelation")
+    ar.constructor = lambda eng, c, a, k: VObj(c, {})
+    mod.globals["AliasRelation"] = ar
+    m = eng.call(cls, [], {})
+    names = ["dae_residual", "initial_residual", "variable_metadata", "delay_arguments"]
+    marks = {n: A.Marker("fn:" + n) for n in names}
+    for n in names:
+        m.fields["_%s_function" % n] = marks[n]
+    eng.cover("cached.properties")
+    ok = all(eng.getattr(m, n + "_function") is marks[n] for n in names)
+    eng.prove("cached.each_function_property_returns_its_own_function", z3.BoolVal(bool(ok)))
+    raised = 0
+    for n in ("equations", "initial_equations"):
+        try:
+            eng.getattr(m, n)
+        except PyRaise as e:
+            raised += e.exc.cls.name == "NotImplementedError"
+    eng.prove("cached.individual_equations_are_refused_not_invented", z3.BoolVal(raised == 2))
 
 
 from pyvc.values import stub as _stub
@@ -278,8 +312,8 @@ _symbols_method = _symbols
 
 
 HARNESSES = [("api.load_model/reconstruction", h_reconstruction), ("api.save_model+load_model/delay-symbol-order", h_delay_symbol_order), ("model.Variable.to_dict/from_dict", h_variable_roundtrip),
-             ("api.save_model ; api.load_model (composed round trip)", h_save_load_roundtrip)]
-EXPECTED_COVER = {"reconstruct.returns", "roundtrip.returns", "delayorder.done", "roundtrip2.returns"}
+             ("api.save_model ; api.load_model (composed round trip)", h_save_load_roundtrip), ("api.CachedModel properties", h_cached_model_properties)]
+EXPECTED_COVER = {"reconstruct.returns", "roundtrip.returns", "delayorder.done", "roundtrip2.returns", "cached.properties"}
 BOUNDED = True
 LEVEL = "proof"
 TRUSTED = ["pyvc VC generator", "z3 5.1.0",
